@@ -6,7 +6,7 @@ package c10
 // frames down) may spend that allowance or touch the holder's tokens.
 //
 //   op   : tkset <token 0=WFX|1=TST> <acct> <token balance> <ERC-20 allowance to the precompile> <coins of the pair's denom>
-//          tk <token> <pair kind fx|erc20> <direct caller> <amount + fee>          (crossChain)
+//          tk <token> <pair kind fx|erc20> <direct caller> <amount + fee>          (crossChain; increaseBridgeFee with amount = fee)
 //          tkb <token> <pair kind> <direct caller> <amount>                        (bridgeCall with a one-token list; refund address = somebody else)
 //   impl : <ok|err> t=<token balance of the direct caller> a=<its allowance to the precompile>     (after the real signed tx)
 //   model: Gen.C10Tok.erc20Leg (handlerERC20Token with convertERC20 inlined, regenerated) interpreted on the model token world
@@ -199,6 +199,13 @@ func phaseTokens(t *testing.T, e *env, rng *rand.Rand, out *hx.Out) {
 				}
 				data, err = cabi.Pack("bridgeCall", ethtypes.ModuleName, refund, []common.Address{tok}, []*big.Int{total}, helpers.GenHexAddress(), []byte{1}, big.NewInt(0), []byte{})
 			}
+			if method == "crossChain" && ti == 0 && rng.Intn(5) == 0 {
+				// increaseBridgeFee with a token: the same ERC-20 leg with amount = fee, on a queued withdrawal of the victim or of x
+				// (anybody may raise anybody's fee — out of its OWN tokens)
+				method = "increaseBridgeFee"
+				ids := append(append([]uint64{}, e.vTx...), e.xTx...)
+				data, err = cabi.Pack("increaseBridgeFee", ethtypes.ModuleName, new(big.Int).SetUint64(ids[rng.Intn(len(ids))]), tok, total)
+			}
 			if err != nil {
 				t.Fatal(err)
 			}
@@ -286,7 +293,7 @@ func phaseTokens(t *testing.T, e *env, rng *rand.Rand, out *hx.Out) {
 					wantB, wantA := b0, a0
 					if status == "ok" && j == ti {
 						wantB = new(big.Int).Sub(b0, total)
-						if method == "crossChain" {
+						if method != "bridgeCall" {
 							wantA = new(big.Int).Sub(a0, total)
 						}
 					}
